@@ -17,6 +17,8 @@
 import EasyMl.Lemmas.Transform
 import EasyMl.Lemmas.Equality
 import EasyMl.Lemmas.Swap
+import EasyMl.Lemmas.MapZip
+import EasyMl.Lemmas.MapMut
 
 namespace EasyMl.C13
 open EasyMl EasyMl.Spec
@@ -192,6 +194,145 @@ example :
       t.reorderMut ["r", "x"] = .panic .explicit := by
   refine ⟨_, rfl, ⟨rfl, rfl⟩, ?_, ?_, ?_⟩ <;> rfl
 
+/-! ### reshape, rename -/
+
+/-- **reshape.**  Both forms accept exactly the targets the constructors accept for the stored
+    element count (product matches, unique names, lengths ≥ 1) and then keep the flat row-major
+    data untouched: the result is the tensor `(target, data)` — i.e. the element at a tuple of the
+    new shape is the one at the same row-major offset of the old one; the in-place form equals the
+    owned form. -/
+theorem reshape_preserves_flat (shape : Shape ν) (data : List α) (t : Tensor ν α)
+    (ht : Tensor.tryFrom shape data = some t) (target : Shape ν) :
+    t.reshapeOwned target =
+      (if Accepts target data.length then .ok (Tensor.ofVal ⟨target, data⟩) else .panic .explicit) ∧
+    t.reshapeMut target = t.reshapeOwned target :=
+  Tensor.reshape_eq shape data t ht target
+
+/-- the reshaped tensor is again a tensor the constructors accept (so everything above applies
+    to it), namely the row-major view of the same data under the new shape -/
+theorem reshape_result_valid (data : List α) (target : Shape ν)
+    (h : Accepts target data.length) :
+    Tensor.tryFrom target data = some (Tensor.ofVal ⟨target, data⟩) :=
+  (tryFrom_eq_some_iff target data _).2 ⟨h, rfl⟩
+
+/-- **rename / rename_owned** = the renamed lazy view (`TensorRename`), panic exactly on
+    repeated names. -/
+theorem rename_eq_materialise_rename (shape : Shape ν) (data : List α) (t : Tensor ν α)
+    (ht : Tensor.tryFrom shape data = some t) (names : List ν) (hl : names.length = shape.length) :
+    t.rename names =
+      if names.Nodup then .ok (Tensor.ofVal (materialise (renamed (ofData shape data) names)))
+      else .panic .explicit :=
+  Tensor.rename_eq shape data t ht names hl
+
+example : ∃ t, Tensor.tryFrom [("a", 2), ("b", 3)] (List.range 6) = some t ∧
+    t.reshapeMut [("x", 3), ("y", 2)] = .ok (Tensor.ofVal ⟨[("x", 3), ("y", 2)], List.range 6⟩) ∧
+    t.reshapeOwned [("x", 4)] = .panic .explicit ∧
+    t.rename ["p", "q"] = .ok (Tensor.ofVal ⟨[("p", 2), ("q", 3)], List.range 6⟩) ∧
+    t.rename ["p", "p"] = .panic .explicit := by
+  refine ⟨_, rfl, ?_, ?_, ?_, ?_⟩ <;> rfl
+
+/-! ### map, map_with_index, elementwise -/
+
+/-- **map / map_with_index** on any valid source, and the `Tensor` forms that work on the data
+    directly, all give the value of the mapped lazy view; `map_mut` is `map` in place. -/
+theorem map_eq_materialise_map (f : α → β) (g : List Nat → α → β) (v : TView ν α)
+    (hv : v.lazy.Valid) :
+    v.map f = .ok (Tensor.ofVal (materialise (mapped f v.lazy))) ∧
+    v.mapWithIndex g = .ok (Tensor.ofVal (materialise (mappedWithIndex g v.lazy))) :=
+  ⟨v.map_eq f hv, v.mapWithIndex_eq g hv⟩
+
+theorem tensor_map_eq (f : α → β) (g : List Nat → α → β) (shape : Shape ν) (data : List α)
+    (t : Tensor ν α) (ht : Tensor.tryFrom shape data = some t) :
+    t.map f = Tensor.ofVal (materialise (mapped f (ofData shape data))) ∧
+    t.mapWithIndex g = Tensor.ofVal (materialise (mappedWithIndex g (ofData shape data))) :=
+  ⟨Tensor.map_eq f shape data t ht, Tensor.mapWithIndex_eq g shape data t ht⟩
+
+theorem mapMut_eq_map (f : α → α) (t : Tensor ν α) : t.mapMut f = t.map f := rfl
+
+/-- **`map_mut_with_index` = `map_with_index`**, every shape: the loop over
+    `iter_reference_mut().with_index()` (read a cell, overwrite it) visits every cell exactly once
+    and never reads a cell it has already overwritten. -/
+theorem mapMutWithIndex_eq_mapWithIndex (f : List Nat → α → α) (shape : Shape ν) (data : List α)
+    (t : Tensor ν α) (ht : Tensor.tryFrom shape data = some t) :
+    t.mapMutWithIndex f = t.mapWithIndex f :=
+  Tensor.mapMutWithIndex_eq f shape data t ht
+
+/-- **In-place mapping through a reordered view of a tensor** (`TensorAccess::map_mut*`): the
+    tensor afterwards is a valid tensor of the same shape which, seen through the same ordering,
+    is the mapped view of the original (so no element is visited twice or skipped whatever the
+    ordering). -/
+theorem access_mapMut_eq_map [Inhabited ν] (f : List Nat → α → α) (shape : Shape ν)
+    (data : List α) (t : Tensor ν α) (ht : Tensor.tryFrom shape data = some t) (names : List ν)
+    (a : Access ν α) (ha : t.indexBy names = some a) :
+    ∃ d', Tensor.tryFrom shape d' = some (a.mapMutWithIndex f) ∧
+      materialise (reordered (ofData shape d') names) =
+        materialise (mappedWithIndex f (reordered (ofData shape data) names)) :=
+  Access.mapMutWithIndex_eq f shape data t ht names a ha
+
+/-- **elementwise** (with and without index; `Tensor` and `TensorView` forms): panic exactly
+    when the two shapes differ, otherwise the value of the element-wise combined view. -/
+theorem elementwise_eq_materialise_zip [DecidableEq (Shape ν)] (f : α → α → α)
+    (g : List Nat → α → α → α) (l r : TView ν α) (hl : l.lazy.Valid) (hr : r.lazy.Valid) :
+    l.elementwise f r =
+      (if l.shape = r.shape then
+        .ok (Tensor.ofVal (materialise (zipped (fun _ => f) l.lazy r.lazy)))
+       else .panic .explicit) ∧
+    l.elementwiseWithIndex g r =
+      (if l.shape = r.shape then .ok (Tensor.ofVal (materialise (zipped g l.lazy r.lazy)))
+       else .panic .explicit) :=
+  ⟨TView.elementwise_eq f l r hl hr, TView.elementwiseWithIndex_eq g l r hl hr⟩
+
+theorem tensor_elementwise_eq [DecidableEq (Shape ν)] (f : α → α → α) (g : List Nat → α → α → α)
+    (shape : Shape ν) (data : List α) (t : Tensor ν α) (ht : Tensor.tryFrom shape data = some t)
+    (r : TView ν α) (hr : r.lazy.Valid) :
+    t.elementwise f r =
+      (if shape = r.shape then
+        .ok (Tensor.ofVal (materialise (zipped (fun _ => f) (ofData shape data) r.lazy)))
+       else .panic .explicit) ∧
+    t.elementwiseWithIndex g r =
+      (if shape = r.shape then
+        .ok (Tensor.ofVal (materialise (zipped g (ofData shape data) r.lazy)))
+       else .panic .explicit) :=
+  ⟨Tensor.elementwise_eq f shape data t ht r hr, Tensor.elementwiseWithIndex_eq g shape data t ht r hr⟩
+
+example : ∃ t, Tensor.tryFrom [("a", 2), ("b", 2)] [1, 2, 3, 4] = some t ∧
+    t.map (· * 10) = Tensor.ofVal ⟨[("a", 2), ("b", 2)], [10, 20, 30, 40]⟩ ∧
+    t.mapWithIndex (fun i x => x + 100 * i.getD 0 0) = Tensor.ofVal ⟨[("a", 2), ("b", 2)], [1, 2, 103, 104]⟩ ∧
+    t.elementwise (· + ·) t.view = .ok (Tensor.ofVal ⟨[("a", 2), ("b", 2)], [2, 4, 6, 8]⟩) ∧
+    t.elementwise (· + ·) (Tensor.ofVal ⟨[("b", 2), ("a", 2)], [1, 2, 3, 4]⟩).view = .panic .explicit := by
+  refine ⟨_, rfl, ?_, ?_, ?_, ?_⟩ <;> rfl
+
+/-! ### first, scalar, tensor ↔ matrix -/
+
+/-- **first** never panics on a valid source and returns the first element of the value;
+    for a `Tensor` that is `data[0]`. -/
+theorem first_eq (v : TView ν α) (hv : v.lazy.Valid) :
+    ∃ x, v.first = .ok x ∧ (materialise v.lazy).elems.head? = some x := v.first_eq hv
+
+theorem tensor_first_eq (shape : Shape ν) (data : List α) (t : Tensor ν α)
+    (ht : Tensor.tryFrom shape data = some t) : ∃ x, t.first = .ok x ∧ data.head? = some x :=
+  Tensor.first_eq shape data t ht
+
+/-- **scalar** of a 0-dimensional source is its sole element. -/
+theorem scalar_eq (v : TView ν α) (hv : v.lazy.Valid) (h0 : v.shape = []) :
+    ∃ x, v.scalar = .ok x ∧ (materialise v.lazy).elems = [x] := v.scalar_eq hv h0
+
+/-- **tensor → matrix → tensor** and **matrix → tensor → matrix** are the identity; the matrix has
+    the same row-major data with `rows`/`columns` the two lengths; equal names are refused. -/
+theorem conversion_roundtrip (r c : ν) (n m : Nat) (data : List α) (t : Tensor ν α)
+    (ht : Tensor.tryFrom [(r, n), (c, m)] data = some t) :
+    t.intoMatrix = .ok ⟨data, n, m⟩ ∧
+    (⟨data, n, m⟩ : Matrix α).intoTensor r c = .ok (some t) :=
+  Tensor.intoMatrix_eq r c n m data t ht
+
+theorem conversion_roundtrip_matrix (mat : Matrix α) (hm : mat.Inv) (r c : ν) :
+    (r = c → mat.intoTensor r c = .ok none) ∧
+    (r ≠ c → ∃ t, Tensor.tryFrom [(r, mat.rows), (c, mat.columns)] mat.data = some t ∧
+        mat.intoTensor r c = .ok (some t) ∧ t.intoMatrix = .ok mat) :=
+  Matrix.intoTensor_eq mat hm r c
+
+example : (⟨[1, 2, 3, 4, 5, 6], 2, 3⟩ : Matrix Nat).Inv := by decide
+
 /-! ### equality -/
 
 /-- **Equality** (`tensor_equality`, behind all four `PartialEq` impls: tensor/tensor,
@@ -285,6 +426,10 @@ theorem similar_iff_exists_reorder [DecidableEq α] [Inhabited ν] (l r : TView 
       rw [tensorEquality_iff _ _ hl (hrv.of_equiv he), materialise_congr he] at heq
       exact ⟨names, hp, heq.symm⟩
     · rw [if_neg hp] at hre; cases hre
+
+/-- The driver's executable form of the specification (try every ordering) is `Similar`. -/
+theorem similarB_iff_similar [DecidableEq α] (l r : LazyView ν α) :
+    similarB l r = true ↔ Similar l r := similarB_iff l r
 
 theorem similar_refl [DecidableEq α] [Inhabited ν] (v : TView ν α) (hv : v.lazy.Valid) :
     tensorSimilarity v v = true :=
